@@ -158,6 +158,9 @@ namespace sqf::runtime
                 return result::ok;
             case behavior::result::exchange:
                 m_instruction_set = m_error_behavior->get_instruction_set(*this);
+                // The handler block is running now: it must not handle what is raised inside itself,
+                // that has to reach the next enclosing handler.
+                m_error_behavior.reset();
                 seek(0, ::sqf::runtime::frame::seekpos::start);
 #ifdef DF__SQF_RUNTIME__ASSEMBLY_DEBUG_ON_EXECUTE
 
